@@ -45,11 +45,19 @@ def gf2_solve(rows, q):
 
 def solver_oracle(line, out):
     f = line.split(); p, q, ln = int(f[1]), int(f[2]), int(f[3])
-    rows = f[4].split(';'); rhs = f[5].split(';')
     sys_ = []
-    for i in range(p):
-        mask = sum(1 << j for j, ch in enumerate(rows[i]) if ch == '1')
-        sys_.append((mask, 0 if rhs[i] == 'N' else int(rhs[i], 16) if rhs[i] else 0))
+    if f[0] == 'solves':
+        # sparse form: only the listed rows matter (a zero row with a NULL right-hand side constrains nothing)
+        for ent in f[4].split(';'):
+            if not ent: continue
+            r_, bits, rh = ent.split(':')
+            sys_.append((sum(1 << j for j, ch in enumerate(bits) if ch == '1'), 0 if rh == 'N' else int(rh, 16)))
+        p = len(sys_)
+    else:
+        rows = f[4].split(';'); rhs = f[5].split(';')
+        for i in range(p):
+            mask = sum(1 << j for j, ch in enumerate(rows[i]) if ch == '1')
+            sys_.append((mask, 0 if rhs[i] == 'N' else int(rhs[i], 16) if rhs[i] else 0))
     verdict = gf2_solve(sys_, q)
     if verdict[0] == 'deficient':
         if out != 'ok st=FAILURE': return ('c18:solver:deficient-not-failure', 'the matrix is not of full column rank but the solver answered %s' % out[:80])
@@ -109,6 +117,34 @@ def solver_lines(rng, tier):
         ln = rng.choice([1, 2, 5, 16])
         x = [rng.randrange(2) * rng.randrange(256 ** ln) for _ in range(q)]
         lines.append(mk(p, q, A, x, ln, inconsistent=(p > q and rng.random() < 0.1))[0])
+    # tall systems (more rows than a 16-bit index holds), given sparsely: a random invertible lower x upper block placed at a random
+    # height, some of them above row 65536, the other rows zero; plus a rank-deficient one
+    for t in range(4 if tier == 'quick' else 40):
+        q = rng.randint(8, 40); ln = rng.choice([1, 4])
+        p = rng.choice([66000, 70000, 131100]) if t % 2 == 0 else rng.choice([300, 5000, 65535, 65536, 65537])
+        first = rng.choice([0, p - q, max(0, min(p - q, 65536 - q // 2)), max(0, min(p - q, 65540))]) if t % 4 else max(0, min(p - q, 65536 + rng.randint(0, 300)))
+        L = [(1 << i) | (rng.getrandbits(i) if i else 0) for i in range(q)]               # unit lower triangular
+        U = [(1 << i) | (rng.getrandbits(q - i - 1) << (i + 1) if i < q - 1 else 0) for i in range(q)]   # unit upper triangular
+        A = []
+        for i in range(q):
+            row = 0
+            for j in range(q):
+                if L[i] >> j & 1: row ^= U[j]
+            A.append(row)
+        if t % 5 == 4: A[rng.randrange(q)] = A[rng.randrange(q)]      # (possibly) rank deficient
+        x = [rng.randrange(256 ** ln) for _ in range(q)]
+        ents = []
+        for i in range(q):
+            v = 0
+            for j in range(q):
+                if A[i] >> j & 1: v ^= x[j]
+            ents.append('%d:%s:%0*x' % (first + i, ''.join('1' if A[i] >> j & 1 else '0' for j in range(q)), 2 * ln, v))
+        # a few extra rows elsewhere that repeat rows of the block (consistent, redundant)
+        for e in range(rng.randint(0, 3)):
+            r_ = rng.randrange(p)
+            if not (first <= r_ < first + q):
+                i = rng.randrange(q); ents.append('%d:%s' % (r_, ents[i].split(':', 1)[1]))
+        lines.append('solves %d %d %d %s' % (p, q, ln, ';'.join(ents)))
     return lines, nsmall
 
 def dense_oracle(lines, outs):
